@@ -124,6 +124,13 @@ func buildSeeds(c *Ctx, withLarge bool) []seedFrame {
 		cfg.cc = true
 		add("256K-blocks", cfg, []wstep{{data: append(runsData(g, 262144+5000), g.Bytes(300)...)}}, false)
 	}
+	// blocks stored raw at the full block size (the record fills the Reader's block buffer to the last
+	// byte; with block checksums the checksum word no longer fits behind it)
+	for k := 0; k < 2; k++ {
+		cfg := base
+		cfg.bc, cfg.cc = true, k == 1
+		add(fmt.Sprintf("stored-full-blocks/bc1/cc%d", k), cfg, []wstep{{data: append(g.Bytes(2*65536), gen.Text(g, c.Repo, 3000)...)}}, true)
+	}
 	// the size word of the last block equals the number of content bytes in front of it
 	for k := 0; k < 4; k++ {
 		cfg := base
